@@ -316,8 +316,11 @@ def sampled_start_insts(flat):
 
 
 def simulate(flat: Flat, emulate_stale=False, emulate_sampled_start=False, preset=None, ref_invalid_notify=True,
-             captured=(), inv_notifies=True) -> ModelRun:
-    """captured: uids whose evaluation errors are captured (exception_time_series): a planned eval fault abandons that one
+             captured=(), inv_notifies=True, sampled_inputs=None) -> ModelRun:
+    """sampled_inputs (known finding F18 emulation): {source uid: original last-modified time} of boundary sources whose first
+    script entry at the start time is a SAMPLE of a value they already held. Consumers in the started graph itself see it as a
+    tick; consumers inside a nested graph below it are run too but read it as not modified, with its original time.
+    captured: uids whose evaluation errors are captured (exception_time_series): a planned eval fault abandons that one
     evaluation (no output, no state change, no new requests), the run continues and pending wake-ups stay pending."""
     case = flat.case
     start, end = case.start, case.end
@@ -334,6 +337,20 @@ def simulate(flat: Flat, emulate_stale=False, emulate_sampled_start=False, prese
         return (uid, phase, fault_counts[k]) in faults
 
     faults = set((int(u), p, int(o)) for u, p, o in case.faults)
+
+    def sampled_kind(i, r, t):
+        """F18 emulation: how reader i sees a boundary source that is only SAMPLED at the start time - 'inner': the reader sits
+        in a nested graph below the started graph (it runs, the value reads as not modified); 'via': the reader obtained the
+        source as the pass-through result of a nested call (it is not woken at all); None: an ordinary tick."""
+        if not sampled_inputs or t != start or r.target.uid not in sampled_inputs:
+            return None
+        if len([p for p in r.via if p[0] == "nested"]) >= 2:
+            R.stats["nested_sampled_unmodified"] = R.stats.get("nested_sampled_unmodified", 0) + 1
+            return "via"
+        kn = innermost_nested(i.path)
+        if len([p for p in i.path[:kn] if p[0] == "nested"]) >= 2 and r.target.path[:kn] != i.path[:kn]:
+            return "inner"
+        return None
 
     def script_at(i, s, k):
         sc = case.scripts.get(i.uid, [])
@@ -412,6 +429,12 @@ def simulate(flat: Flat, emulate_stale=False, emulate_sampled_start=False, prese
     if emulate_sampled_start:
         for k in sampled_start_insts(flat):
             forced[k] = {start}
+    for pk in (preset or {}):
+        # a value that is already there when a nested graph starts is sampled by the nested graph's consumers of it
+        for i in insts:
+            kn = innermost_nested(i.path)
+            if kn and any(r.target.id == pk and not r.passive and r.target.path[:kn] != i.path[:kn] for r in i.ins):
+                forced.setdefault(i.id, set()).add(start)
 
     def wake_time(k):
         i, s = insts[k], S[k]
@@ -521,7 +544,7 @@ def simulate(flat: Flat, emulate_stale=False, emulate_sampled_start=False, prese
             for q, r in enumerate(i.ins):
                 if r.passive or q in act_exc:
                     continue
-                if r.target.id in ticked or r.target.id in notified:
+                if (r.target.id in ticked or r.target.id in notified) and sampled_kind(i, r, t) != "via":
                     active_tick = True
             if not (due or active_tick):
                 if any(r.target.id in ticked for r in i.ins):
@@ -544,6 +567,10 @@ def simulate(flat: Flat, emulate_stale=False, emulate_sampled_start=False, prese
                         ready = False
             ins_snap = [(1 if S[r.target.id].valid else 0, 1 if r.target.id in ticked else 0, S[r.target.id].lmt,
                          S[r.target.id].val if S[r.target.id].valid else None) for r in i.ins]
+            for q, r in enumerate(i.ins):
+                if sampled_kind(i, r, t) and ins_snap[q][1] and sampled_inputs[r.target.uid] is not None:
+                    ins_snap[q] = (ins_snap[q][0], 0, sampled_inputs[r.target.uid], ins_snap[q][3])
+                    R.stats["nested_sampled_unmodified"] = R.stats.get("nested_sampled_unmodified", 0) + 1
             out = None
             ran = False
             if forced_due and not pending_due and not active_tick:
